@@ -101,6 +101,7 @@ func main() {
 		}
 	}
 	var hs []history
+	var fhs []history // histories with injected storage faults (C18 retention oracle only, no T leg)
 	if *replay != "" {
 		raw, err := os.ReadFile(*replay)
 		if err != nil {
@@ -113,6 +114,9 @@ func main() {
 			panic(err)
 		}
 		hs = []history{rp.Input}
+		if len(rp.Input.Faults) > 0 {
+			hs, fhs = nil, []history{rp.Input}
+		}
 	} else {
 		// corpus first
 		var files []string
@@ -138,8 +142,38 @@ func main() {
 			hs = append(hs, genHistory(r, long))
 		}
 	}
+	if *replay == "" && (*prop == "" || *prop == "C18") {
+		// Storage faults are outside C18's quantifier; this leg exercises the error paths of a rotation
+		// on single-stream MPEG-TS / fMP4 muxers, where the unchanged code recovers from a failed file
+		// creation (with several streams or in Low-Latency mode it panics: DESIGN.md 12.3, observation O1).
+		nf := count / 5
+		for i := 0; i < nf; i++ {
+			var h history
+			var r *rng.R
+			for try := 0; try < 40; try++ {
+				r = rng.New(*seed^0xFA17FA17, uint64(i*40+try))
+				h = genHistory(r, *tier == "thorough" && i%25 == 0)
+				if len(h.Tracks) == 1 && h.Variant != 3 {
+					break
+				}
+			}
+			if len(h.Tracks) != 1 || h.Variant == 3 {
+				continue
+			}
+			// each NewFile call after the first two fails with probability 1/6
+			for k := 2; k < 600; k++ {
+				if r.Bool(1, 6) {
+					h.Faults = append(h.Faults, k)
+				}
+			}
+			fhs = append(fhs, h)
+		}
+	}
 	for i := range hs {
 		annotate(&hs[i])
+	}
+	for i := range fhs {
+		annotate(&fhs[i])
 	}
 
 	outs := make([]caseOut, len(hs))
@@ -160,6 +194,19 @@ func main() {
 			}
 			co.fails = runOracles(&hs[i], res)
 			outs[i] = co
+		}(i)
+	}
+	fouts := make([]caseOut, len(fhs))
+	for i := range fhs {
+		wg.Add(1)
+		sem <- struct{}{}
+		go func(i int) {
+			defer wg.Done()
+			defer func() { <-sem }()
+			dir := filepath.Join(*out, "disk", "f"+strconv.Itoa(i))
+			res := runImpl(&fhs[i], dir)
+			os.RemoveAll(dir)
+			fouts[i] = caseOut{h: fhs[i], res: res, fails: runOracles(&fhs[i], res)}
 		}(i)
 	}
 	wg.Wait()
@@ -325,6 +372,25 @@ func main() {
 			fails = append(fails, failOut{Signature: f.Signature, What: f.What, Input: j, Prop: f.Prop})
 		}
 	}
+	faultWrites := 0
+	for _, co := range fouts {
+		j, _ := json.Marshal(co.h)
+		dist["storage-fault-histories"]++
+		for _, rc := range co.res.results {
+			if rc == 11 {
+				faultWrites++
+			}
+		}
+		for _, f := range co.fails {
+			if *prop != "" && f.Prop != *prop {
+				continue
+			}
+			fails = append(fails, failOut{Signature: f.Signature, What: f.What, Input: j, Prop: f.Prop})
+		}
+	}
+	if len(fouts) > 0 {
+		dist["storage-fault-writes-failed"] = faultWrites
+	}
 	for _, m := range mismatches {
 		if *prop != "" {
 			ok := false
@@ -352,7 +418,8 @@ func main() {
 		"distinct_nontrivial": distinct,
 		"rule": "configurations and write histories from splitmix64(seed, index): variant x track set (0-1 video: H264 / H265 / VP9 / AV1 on the fMP4 variants, H264 on MPEG-TS plus rejected MPEG-TS configurations with the other three; 0-3 AAC/Opus audio, any order) x SegmentCount x SegmentMinDuration x PartMinDuration x SegmentMaxSize x RAM/disk; " +
 			"30-230 writes (long histories: 1500-3000) with jitter, equal DTS, mid-GOP and negative starts, multi-AU audio, parameter changes (H264/H265 on any unit, VP9/AV1 on key frames / sequence headers), H265 picture reordering (pts - dts of 0-4 frame ticks), cross-track skew; distinct by SHA-256 of the history; " +
-			"non-trivial = at least 2 segments published and at least 3 rotations",
+			"non-trivial = at least 2 segments published and at least 3 rotations; " +
+			"C18 only: in addition evaluations/5 single-stream MPEG-TS / fMP4 histories in which each storage NewFile call fails with probability 1/6 (retention oracle only, outside the model; counted under storage-fault-histories, not under evaluations)",
 		"samples":         samples,
 		"distribution":    dist,
 		"oracle_failures": fails,
